@@ -10,10 +10,13 @@
  *   getdecl <0|1> <hash> <hexbytes>  -> <value>       (0 = NULL)
  *   gettag  <0|1> <hash> <hexbytes>  -> <value>
  *
+ *   hash <hexbytes>                  -> <hash>        (what the real mapkey() computes for the name)
+ *
  * Names are C strings here (hexbytes without 00; `-` is the empty name), and scope.c hashes them
- * itself with mapkey().  The <hash> field of the line is what the MODEL uses (its hash is a free
- * field); the harness checks that it equals the hash the real mapkey() computes and answers
- * `hash-mismatch` otherwise, so both sides provably work on the same (hash, bytes) keys. */
+ * itself with mapkey().  The <hash> field of the operation lines is what the MODEL uses (its hash
+ * is a free field, and its answers do not depend on it: theorem hash_independent); this harness
+ * ignores it.  The check asks for the real hashes with `hash` lines in a preliminary pass, so it
+ * never depends on knowing the hash function of map.c. */
 #include <stdbool.h>
 #include <stddef.h>
 #include <stdint.h>
@@ -76,13 +79,13 @@ parsenum(const char *s, unsigned long long *v)
 	return *end == '\0';
 }
 
-static bool
-hashok(const char *name, unsigned long long hash)
+static unsigned long
+realhash(const char *name)
 {
 	struct mapkey k;
 
 	mapkey(&k, name, strlen(name));
-	return k.hash == hash;
+	return k.hash;
 }
 
 int
@@ -113,10 +116,6 @@ main(void)
 			}
 		} else if (ntok == 4 && strcmp(tok[0], "putdecl") == 0 && parsenum(tok[1], &hash)
 		           && parsenum(tok[3], &val) && val != 0 && (name = parsename(tok[2]))) {
-			if (!hashok(name, hash)) {
-				puts("hash-mismatch");
-				continue;
-			}
 			/* one decl object per declaration; its identity is the value */
 			d = calloc(1, sizeof(*d));
 			if (!d)
@@ -128,20 +127,11 @@ main(void)
 			puts("ok");
 		} else if (ntok == 4 && strcmp(tok[0], "puttag") == 0 && parsenum(tok[1], &hash)
 		           && parsenum(tok[3], &val) && (name = parsename(tok[2]))) {
-			if (!hashok(name, hash)) {
-				puts("hash-mismatch");
-				continue;
-			}
 			scopeputtag(s, name, (struct type *)(uintptr_t)val);
 			puts("ok");
 		} else if (ntok == 4 && (strcmp(tok[0], "getdecl") == 0 || strcmp(tok[0], "gettag") == 0)
 		           && (strcmp(tok[1], "0") == 0 || strcmp(tok[1], "1") == 0)
 		           && parsenum(tok[2], &hash) && (name = parsename(tok[3]))) {
-			if (!hashok(name, hash)) {
-				puts("hash-mismatch");
-				free(name);
-				continue;
-			}
 			if (tok[0][3] == 'd') {
 				d = scopegetdecl(s, name, tok[1][0] == '1');
 				printf("%llu\n", d ? d->u.enumconst : 0ull);
@@ -149,6 +139,9 @@ main(void)
 				t = scopegettag(s, name, tok[1][0] == '1');
 				printf("%llu\n", (unsigned long long)(uintptr_t)t);
 			}
+			free(name);
+		} else if (ntok == 2 && strcmp(tok[0], "hash") == 0 && (name = parsename(tok[1]))) {
+			printf("%lu\n", realhash(name));
 			free(name);
 		} else {
 			puts("bad-op");
